@@ -445,6 +445,26 @@ def rng_sites(srcs):
     return sites
 
 
+SYNC_OBJ = re.compile(r"\b(Mutex|RwLock|Condvar|OnceLock|OnceCell|LazyLock|Lazy|Barrier|Semaphore|Atomic[A-Z]\w*|RefCell|Cell|UnsafeCell)\s*<|\bthread_local\s*!|\blazy_static\s*!|\bstatic\s+(?:mut\s+)?[A-Z_][A-Z0-9_]*\s*:")
+
+
+def sync_objects(srcs):
+    """every shared-state / synchronisation object declared in the library (tests excluded): (file, what)"""
+    objs = []
+    for rel, txt in srcs:
+        t = strip_test_modules(txt)
+        t = re.sub(r"//[^\n]*", "", t)
+        for m in SYNC_OBJ.finditer(t):
+            if m.group(1):
+                # the type with its parameter, e.g. `Mutex<CsRng>`
+                j = t.find(">", m.end())
+                what = re.sub(r"\s+", "", t[m.start():j + 1]) if j >= 0 and j - m.end() < 80 else m.group(1)
+            else:
+                what = re.sub(r"\s+", " ", m.group(0)).strip()
+            objs.append((rel, what))
+    return objs
+
+
 def gen_locks(repo):
     head = ["/-! GENERATED by tools/gen_tables.py from /repo/src/api.rs and encrypted_header.rs on every check run. Do not edit. -/",
             "namespace CC.Generated",
@@ -526,11 +546,17 @@ def gen_locks(repo):
         out.append("def rngSites : List (String × String × Bool) := [")
         out.append(",\n".join(f'  ("{w}", "{k}", {"true" if c else "false"})' for w, k, c in sites))
         out.append("]")
+        objs = sync_objects(srcs)
+        out.append("/-- every shared-state / synchronisation object the library declares (tests excluded): the scheduling model has")
+        out.append("one mutex, the generator's; anything else here is outside it -/")
+        out.append("def syncObjects : List (String × String) := [")
+        out.append(",\n".join(f'  ("{w}", "{k}")' for w, k in objs))
+        out.append("]")
         out.append("end CC.Generated")
-        return "\n".join(out) + "\n", {"locks": {"ok": True, "functions": len(rows), "guard_helpers": aliases, "rng_sites": [list(x) for x in sites]}}
+        return "\n".join(out) + "\n", {"locks": {"ok": True, "functions": len(rows), "guard_helpers": aliases, "rng_sites": [list(x) for x in sites], "sync_objects": [list(x) for x in objs]}}
     except (Unavailable, OSError) as e:
         out = head + ["def locksAvailable : Bool := false", "def lockTable : List (String × List LockEv) := []",
-                      "def rngSites : List (String × String × Bool) := []", "end CC.Generated"]
+                      "def rngSites : List (String × String × Bool) := []", "def syncObjects : List (String × String) := []", "end CC.Generated"]
         return "\n".join(out) + "\n", {"locks": {"ok": False, "reason": str(e)}}
 
 
